@@ -5,7 +5,7 @@ import zcklib as Z
 from props import hdrgen, filegen as FG
 
 PROP = 'C02'
-MODULES = ['ZckModel.Props.C02', 'ZckModel.Props.C02Stream', 'ZckModel.Props.C02Decode']
+MODULES = ['ZckModel.Props.C02', 'ZckModel.Props.C02Stream', 'ZckModel.Props.C02Decode', 'ZckModel.Props.C02Full']
 ASSUMPTIONS = [
     "the codec is external: libzstd's verdict on every stored chunk (computed by calling libzstd directly) is given to the Lean "
     "reference decoder as a table; the theorems hold for ANY codec function",
